@@ -39,5 +39,5 @@ if __name__ == "__main__":
     with mp.get_context("fork").Pool(16) as pool:
         res = pool.map(job, jobs, chunksize=1)
     res.sort(reverse=True)
-    for r in res[:12]:
+    for r in [x for x in res if x[0] > 20 or x[3] != "ok"][:60] + res[:5]:
         print("%.1f %s %s %s" % r)
